@@ -25,6 +25,7 @@ Driver for C03.  Lists: `,` inside a posting list / chunk, `;` between chunks / 
   ids.query <per> <ids> <positions> <lid@mid:rid;...>  -> ok <mid:rid:pos:loe;...>   (x = panic)
   tokens.gen <old|new> <rbs> <fields: hex,hex|...>   -> ok <field:isStart:total:startTID:hex,hex|...> | panic
   tokens.table <rbs> <base> <fields>               -> ok entries=<field:startIndex:startTID:blockIndex:valCount:min:max;...> vals=<hex,...> | panic
+  tokens.getseq <rbs> <base> <fields> <tids>       -> ok <x hex or ? per call, in call order>   (one index instance)
   tokens.tablebytes <rbs> <base> <name pad> <fields>  -> ok <hex of every token TABLE block|...> loaded=<1 iff loadTable = kept table>
   tokens.select <hint> <minVal> <maxVals>          -> ok <l> <r>
   frac.index <mids> <rids> <allDocs> <posting> <minLID> <maxLID>  -> ok ids=<mid:rid,...> index=<...> asc=<lids> desc=<lids>
@@ -223,6 +224,15 @@ def step (line : String) : String :=
         s!"ok entries={fmtList fmtEntry w.entries ";"} vals={fmtList id vals}"
       | .error _ => "panic"
     | _, _, _ => "bad-op"
+  | ["tokens.getseq", rbs, base, fs, tids] =>
+    match rbs.toNat?, base.toNat?, parseTokFields fs, natList? tids with
+    | some rbs, some base, some fs, some tids =>
+      match genTokenBlocks bsNew rbs fs with
+      | .ok bs =>
+        let w := writeTokens rbs base bs
+        s!"ok {fmtList (fun (v : Option Tok) => match v with | some v => fmtX v | none => "?") (getValSeq base w tids)}"
+      | .error _ => "panic"
+    | _, _, _, _ => "bad-op"
   | ["tokens.tablebytes", rbs, base, pad, fs] =>
     match rbs.toNat?, base.toNat?, pad.toNat?, parseTokFields fs with
     | some rbs, some base, some pad, some fs =>
